@@ -23,7 +23,7 @@ RULE = (
 ASSUMPTIONS = [
     "CFGs are built through CFG.new_bb/link/dummy_link, which record every edge at both ends (Cfg.WF.conv) and keep all blocks in cfg.bbs (closedness)",
     "Python set semantics: pop() may return any element; the hook makes the real worklist pop the block the harness names, so every order is reachable",
-    "termination is proved for the liveness worklist (liveRun_terminates, explicit fuel bound, every scheduler); for the assignment worklist it is observed by the correspondence on every generated case, not proved",
+    "termination of both worklists is proved (liveRun_terminates / assRun_terminates: explicit fuel bounds, every scheduler)",
 ]
 UNMODELLED = [
     "VariableVisitor (how used/assigned sets are computed from statements) is covered under C08",
@@ -39,7 +39,7 @@ MANIFEST = {
     "independent reachability oracle checks the real results against the path semantics directly.",
     "level_note": "Trusted: Lean kernel + propext/Classical.choice/Quot.sound; the reading of 'paths' as paths over real+dummy edges when "
     "include_unreachable is set; correspondence is sampling (exhaustive over all schedules for small CFGs in the thorough tier); "
-    "termination of the forward worklist is observed, not proved (the backward one is proved).",
+    "termination of both worklists is proved with explicit bounds.",
     "technique": "Lean 4 proof (worklist invariants, induction over runs, coinductive path construction) + replay correspondence through a scheduler hook",
     "design_ref": "DESIGN.md §5 C09",
     "ready": True,
